@@ -13,4 +13,7 @@ for h in harness/vh-*/; do
   cp "${VERIF_REPO:-/repo}/Cargo.lock" "$h/Cargo.lock"
   (cd "$h" && cargo build --offline 2>&1 | tail -2)
 done
+# C17 support: the crate's own loom scenarios (bounded model checking of the real code) need a --cfg loom build
+(cd "${VERIF_REPO:-/repo}" && RUSTFLAGS="--cfg s2n_internal_dev --cfg loom" CARGO_TARGET_DIR="$(cd "$OLDPWD" && pwd)/.cache/target-loom" \
+   cargo test -p s2n-quic-core --offline --lib --no-run 2>&1 | tail -1) || true
 echo setup done
